@@ -374,11 +374,15 @@ func (c *copier) copy(ctx context.Context, src, srcComponents, target string, ov
 	}
 
 	if include {
-		if err := c.removeTargetIfNeeded(target, fi, targetFi); err != nil {
+		// materialise (and thereby validate) the lazily created parents
+		// first: target may lie below a destination symlink that stands
+		// where such a parent belongs, and removing "the target" would then
+		// remove an entry of the directory the link points to
+		if err := c.createParentDirs(src, overwriteTargetMetadata); err != nil {
 			return err
 		}
 
-		if err := c.createParentDirs(src, overwriteTargetMetadata); err != nil {
+		if err := c.removeTargetIfNeeded(target, fi, targetFi); err != nil {
 			return err
 		}
 	}
